@@ -187,6 +187,10 @@ def run(ctx):
     ctx.rule("C17.R6", "A7 sibling agreement: reg2bin (indexing side) and reg2bins (query side) use the same coordinate convention")
     binning_convention_rule(ctx, "C17.R6")
 
+    ctx.rule("C17.R11", "A7 sibling agreement: the linear index is filled (update) and consulted (min_offset) with the same window function of "
+                        "a 1-based position, (p - 1) / 2^14: a query-side window one too far prunes the chunk of a feature ending on a window's last base")
+    linear_window_rule(ctx, "C17.R11")
+
     ctx.rule("C17.R4", "A7/A8 magic numbers are single constants used by reader and writer; BAI/tabix geometry is (14,5)")
     for name, (prefix, ckey, want) in FORMATS.items():
         R.const_rule(ctx, "C17.R4", "%s magic" % name, {"m": ckey}, lambda v, want=want: (v["m"] == want, want.hex()), "SAMv1 §5.2 / CSIv1 / tabix spec")
@@ -283,6 +287,40 @@ def binning_convention_rule(ctx, rule):
                               pname, sorted(a), sorted(b)), fb.fns["noodles_csi::binning_index::index::reference_sequence::reg2bins"].loc())
     if ok:
         ctx.ok(rule, "reg2bin and reg2bins both shift start-1 and end-1", "")
+
+
+def linear_window_rule(ctx, rule):
+    """LinearIndex::update (indexing side, parameter `end`) and LinearIndex::min_offset (query side, parameter `start`): every division
+    or right shift of a value that derives from the position parameter has passed exactly one `- 1`, and the window is 2^14 on both sides."""
+    fb = ctx.fb
+    pre = "noodles_csi::binning_index::index::reference_sequence::index::linear_index::<impl noodles_csi::binning_index::index::" \
+          "reference_sequence::index::Index for alloc::vec::Vec<noodles_bgzf::virtual_position::VirtualPosition>>::"
+    sig = {}
+    for name, param in (("update", 5), ("min_offset", 4)):
+        f = ctx.anchor(rule, pre + name)
+        if f is None:
+            return
+        per = set()
+        for blk in f.blocks:
+            for st in blk["s"]:
+                if st[0] == "=" and st[2][0] == "bin" and st[2][1] in ("Div", "Shr", "ShrUnchecked") and \
+                        (R.derives_from_local(f, st[2][2], param, through_calls=True) or C.op_local(st[2][2]) == param):
+                    k = C.eval_const(f, st[2][3])
+                    width = None if k is None else (k if st[2][1] == "Div" else 1 << k)
+                    per.add((_sub1_count(f, st[2][2], param), width))
+        if not per:
+            ctx.violation(rule, "%s/ANCHOR-MISSING/%s/window" % (rule, name), "LinearIndex::%s: no division or shift of a value derived from the "
+                          "position parameter found" % name, f.loc())
+            return
+        sig[name] = per
+    want = {(1, 1 << 14)}
+    if sig["update"] == want and sig["min_offset"] == want:
+        ctx.ok(rule, "LinearIndex::update and ::min_offset both take (p - 1) / 16384", "")
+    else:
+        ctx.violation(rule, "%s/window-convention" % rule,
+                      "the linear index is filled with windows %s (count of `- 1`, width) but consulted with %s: a region starting on the last "
+                      "base of a window is looked up in the next one and the chunk of a feature ending there is pruned" % (
+                          sorted(sig["update"], key=str), sorted(sig["min_offset"], key=str)), fb.fns[pre + "min_offset"].loc())
 
 
 def _sub1_count(f, op, param, depth=0):
